@@ -238,6 +238,11 @@ def run(R, tier):
                 oks = [r for r in res if M.outcome(r) == "Ok"]
                 vars_ = {r.retval.fields[0].name for r in oks if isinstance(r.retval.fields.get(0), EnumV)}
                 units_ = {(unit_of(r)[0] or "?").split("::")[-1] for r in oks}
+                # the number handed to the element type's conversion is the token's own numeric part, as plain decimal data
+                for r in oks:
+                    conv = [e for e in r.trace if e.kind == "call" and e.name.endswith("TryFrom::try_from")]
+                    if not (len(conv) == 1 and "DecimalNumericProgramData" in repr(conv[0].args[0]) and _all_bytes(conv[0].args[0]) == [b"-3.5"]):
+                        bad.append("%r: the number is not handed on as it stands (%s)" % (variant, [repr(e.args[0])[:80] for e in conv]))
                 if vars_ != {"Logarithmic"} or units_ != {unit_} or not all(M.outcome(r) in ("Ok", "Err(?)") for r in res):
                     bad.append("%r -> %s %s (%s), expected Logarithmic with reference %s" % (variant, sorted(vars_), sorted(units_), sorted({M.outcome(r) for r in res}), unit_))
         near = set()
